@@ -51,6 +51,22 @@ class State:
         s.ghost = dict(self.ghost)
         return s
 
+    def feasible(self):
+        """Cheap path pruning: the path condition alone (no prelude axioms) refuted within 150 ms.
+        Only `unsat` prunes, so this can never drop a feasible path."""
+        n = len(self.pc)
+        if getattr(self, "_feas_n", -1) == n:
+            return True
+        sv = z3.Solver()
+        sv.set("timeout", 150)
+        for h in self.pc:
+            if not z3.is_quantifier(h):
+                sv.add(h)
+        ok = sv.check() != z3.unsat
+        if ok:
+            self._feas_n = n
+        return ok
+
     def assume(self, *facts):
         for f in facts:
             if isinstance(f, bool):
@@ -278,8 +294,12 @@ class Engine:
         if isinstance(v, VBool):
             return v.t
         if isinstance(v, VInt):
+            if z3.is_int_value(v.t):
+                return z3.BoolVal(v.t.as_long() != 0)
             return v.t != 0
         if isinstance(v, VSeq):
+            if v.py is not None:
+                return z3.BoolVal(len(v.py) != 0)
             return IS.len(v.t) != 0
         if isinstance(v, VList):
             return VS.len(v.t) != 0
@@ -316,6 +336,8 @@ class Engine:
         if isinstance(b, VBool) and isinstance(a, VInt):
             b = VInt(z3.If(b.t, 1, 0))
         if isinstance(a, VInt) and isinstance(b, VInt):
+            if z3.is_int_value(a.t) and z3.is_int_value(b.t):
+                return z3.BoolVal(a.t.as_long() == b.t.as_long())
             return a.t == b.t
         if isinstance(a, VBool) and isinstance(b, VBool):
             return a.t == b.t
@@ -324,6 +346,8 @@ class Engine:
             kb = "bytes" if b.kind == "bytearray" else b.kind
             if ka != kb:
                 return z3.BoolVal(False)
+            if a.py is not None and b.py is not None:
+                return z3.BoolVal(a.py == b.py)
             return IS.eq(a.t, b.t)
         if isinstance(a, VList) and isinstance(b, VList):
             return VS.eq(a.t, b.t)
@@ -721,6 +745,9 @@ class Engine:
             r = self.contains(st, b, a, node)
             return r if isinstance(op, ast.In) else Not_(r)
         x, y = self.as_int(st, a, node), self.as_int(st, b, node)
+        if z3.is_int_value(x) and z3.is_int_value(y):
+            xv, yv = x.as_long(), y.as_long()
+            return z3.BoolVal({ast.Lt: xv < yv, ast.LtE: xv <= yv, ast.Gt: xv > yv, ast.GtE: xv >= yv}[type(op)])
         if isinstance(op, ast.Lt):
             return x < y
         if isinstance(op, ast.LtE):
@@ -791,9 +818,15 @@ class Engine:
                     return b if not isinstance(b, VRef) else self.copy_list(st, b)
                 if isinstance(cb, dict) and cb.get("__kind__") == "emptylist":
                     return a
-            return VInt(self.as_int(st, a, node) + self.as_int(st, b, node))
+            x, y = self.as_int(st, a, node), self.as_int(st, b, node)
+            if z3.is_int_value(x) and z3.is_int_value(y):
+                return VInt(x.as_long() + y.as_long())
+            return VInt(x + y)
         if isinstance(op, ast.Sub):
-            return VInt(self.as_int(st, a, node) - self.as_int(st, b, node))
+            x, y = self.as_int(st, a, node), self.as_int(st, b, node)
+            if z3.is_int_value(x) and z3.is_int_value(y):
+                return VInt(x.as_long() - y.as_long())
+            return VInt(x - y)
         if isinstance(op, ast.Mult):
             if isinstance(a, VSeq) and isinstance(b, (VInt, VBool)):
                 return self.seq_rep(st, a, self.as_int(st, b))
@@ -1048,67 +1081,39 @@ class Engine:
 
 
 def auto_patterns(body, vars_):
-    """Candidate E-matching patterns: smallest uninterpreted applications containing all bound variables."""
+    """Candidate E-matching patterns: minimal uninterpreted applications that contain all bound variables
+    and no if-then-else.  Memoised over the term DAG."""
     vids = {v.get_id() for v in vars_}
+    info = {}     # id -> (frozenset of bound var ids inside, has_ite, has_candidate_below)
     found = []
-    seen = set()
-    arith = {z3.Z3_OP_ADD, z3.Z3_OP_SUB, z3.Z3_OP_MUL, z3.Z3_OP_IDIV, z3.Z3_OP_MOD, z3.Z3_OP_LE, z3.Z3_OP_LT,
-             z3.Z3_OP_GE, z3.Z3_OP_GT, z3.Z3_OP_EQ, z3.Z3_OP_AND, z3.Z3_OP_OR, z3.Z3_OP_NOT, z3.Z3_OP_IMPLIES,
-             z3.Z3_OP_ITE, z3.Z3_OP_UMINUS, z3.Z3_OP_DISTINCT, z3.Z3_OP_DIV, z3.Z3_OP_REM}
 
-    def contains_vars(t):
-        ids = set()
+    def visit(t):
+        tid = t.get_id()
+        if tid in info:
+            return info[tid]
+        if tid in vids:
+            info[tid] = (frozenset([tid]), False, False)
+            return info[tid]
+        if z3.is_quantifier(t) or not z3.is_app(t):
+            info[tid] = (frozenset(), False, False)
+            return info[tid]
+        vs, ite, below = frozenset(), t.decl().kind() == z3.Z3_OP_ITE, False
+        for c in t.children():
+            cv, ci, cb = visit(c)
+            vs |= cv
+            ite = ite or ci
+            below = below or cb
+        k = t.decl().kind()
+        cand = (k == z3.Z3_OP_UNINTERPRETED and t.num_args() > 0) or k == z3.Z3_OP_DT_ACCESSOR
+        is_cand = cand and vs == vids and not ite
+        if is_cand and not below:
+            found.append(t)
+        info[tid] = (vs, ite, below or is_cand)
+        return info[tid]
 
-        def walk(x):
-            if x.get_id() in vids:
-                ids.add(x.get_id())
-            if z3.is_app(x):
-                for c in x.children():
-                    walk(c)
-        walk(t)
-        return ids
-
-    def bad_inside(t):
-        """patterns may not contain interpreted arithmetic at top, but nested +/- on vars is tolerated by z3"""
-        return False
-
-    def walk(t):
-        if t.get_id() in seen:
-            return
-        seen.add(t.get_id())
-        if z3.is_quantifier(t):
-            return
-        if z3.is_app(t):
-            k = t.decl().kind()
-            if k == z3.Z3_OP_UNINTERPRETED and t.num_args() > 0 or k in (z3.Z3_OP_DT_ACCESSOR,):
-                if contains_vars(t) == vids and not has_ite(t):
-                    found.append(t)
-                    return_children = True
-                else:
-                    return_children = True
-            for c in t.children():
-                walk(c)
-
-    def has_ite(t):
-        if z3.is_app(t) and t.decl().kind() in (z3.Z3_OP_ITE,):
-            return True
-        return any(has_ite(c) for c in t.children()) if z3.is_app(t) else False
-
-    walk(body)
-    # keep the minimal ones (drop a candidate if one of its strict sub-terms is also a candidate)
-    def subterms(t):
-        out = set()
-
-        def w(x):
-            for c in x.children():
-                out.add(c.get_id())
-                w(c)
-        w(t)
-        return out
-    ids = {f.get_id() for f in found}
-    minimal = [f for f in found if not (subterms(f) & ids)]
+    visit(body)
     uniq = {}
-    for f in minimal:
+    for f in found:
         uniq[f.get_id()] = f
     return list(uniq.values())[:6]
 
